@@ -3,7 +3,7 @@
    member decodes, the three compression anchors are members; the new name's own label starts join
    L, its pointer (if any) leads into the old L; a name never takes more room than its
    uncompressed form and fails (Truncation) only if that form does not fit. *)
-From QV Require Import Base.ListX Model.MsgWriter Proofs.NameWireP Proofs.MsgWriterP
+From QV Require Import Base.ListX Model.MsgWriter Spec.NameWireS Proofs.NameWireP Proofs.MsgWriterP
      Proofs.MsgWriterScanP Proofs.MsgWriterNameP Proofs.MsgWriterClosP Proofs.MsgWriterScanSP.
 
 Local Open Scope nat_scope.
@@ -15,7 +15,8 @@ Record NInv (w : writer) (h : nat) (L : nat -> Prop) : Prop := mkNInv {
   ni_closed : closed (w_buf w) header_size (w_cursor w) h L;
   ni_dec : decodable (w_buf w) (w_cursor w) L;
   ni_pr : priors_ok w;
-  ni_prL : forall pr, w_qname w = Some pr \/ w_mro w = Some pr \/ w_mrn w = Some pr -> L (p_ptr pr) }.
+  ni_prL : forall pr, w_qname w = Some pr \/ w_mro w = Some pr \/ w_mrn w = Some pr -> L (p_ptr pr);
+  ni_sdec : sdec (w_buf w) (w_cursor w) L }.
 
 Definition grew (w w' : writer) (L L' : nat -> Prop) : Prop :=
   (forall s, L s -> L' s) /\ (forall s, L' s -> L s \/ (w_cursor w <= s /\ s < w_cursor w')).
@@ -33,8 +34,9 @@ Qed.
 
 Lemma NInv_ext w w' h L : NInv w h L -> ext (w_cursor w) w w' -> side_eq w w' -> NInv w' h L.
 Proof.
-  intros [Hnb Hlo Hh Hcl Hd [Pq [Po Pr]] HL] X [S1 [S2 [S3 S4]]].
+  intros [Hnb Hlo Hh Hcl Hd [Pq [Po Pr]] HL Hsd] X [S1 [S2 [S3 S4]]].
   pose proof (x_len _ _ _ X) as XL. pose proof (x_cur _ _ _ X) as XC. pose proof (x_agree _ _ _ X) as XA.
+  pose proof (ext_nb _ _ _ X Hnb) as [Nb1 Nb2].
   assert (R : ragree header_size (w_cursor w) h (w_buf w) (w_buf w')) by (apply agree_ragree; auto).
   constructor.
   - eapply ext_nb; eauto.
@@ -45,11 +47,12 @@ Proof.
   - unfold priors_ok. rewrite S1, S2, S3.
     repeat split; eapply oprior_ok_stable; eauto.
   - rewrite S1, S2, S3. exact HL.
+  - eapply sdec_mono; [eapply sdec_transfer; eauto; lia|lia].
 Qed.
 
 Lemma NInv_grow w h (L L' : nat -> Prop) : NInv w h L -> (forall s, L s -> L' s) ->
-  closed (w_buf w) header_size (w_cursor w) h L' -> decodable (w_buf w) (w_cursor w) L' -> NInv w h L'.
-Proof. intros [] HL C D. constructor; auto. Qed.
+  closed (w_buf w) header_size (w_cursor w) h L' -> sdec (w_buf w) (w_cursor w) L' -> NInv w h L'.
+Proof. intros [] HL C D. constructor; auto. apply sdec_decodable; auto. Qed.
 
 Lemma NInv_try_push data w u w' h L : NInv w h L -> try_push data w = Ok (u, w') -> NInv w' h L.
 Proof.
@@ -70,7 +73,7 @@ Qed.
 Lemma NInv_set_mro w h L pr : NInv w h L -> oprior_ok (w_buf w) (w_cursor w) pr ->
   (forall p, pr = Some p -> L (p_ptr p)) -> NInv (set_mro w pr) h L.
 Proof.
-  intros [Hnb Hlo Hh Hcl Hd [Pq [Po Pr]] HL] Hp HpL. constructor; auto.
+  intros [Hnb Hlo Hh Hcl Hd [Pq [Po Pr]] HL Hsd] Hp HpL. constructor; auto.
   - repeat split; auto.
   - simpl. intros p [H|[H|H]]; auto.
 Qed.
@@ -78,7 +81,7 @@ Qed.
 Lemma NInv_set_mrn w h L pr : NInv w h L -> oprior_ok (w_buf w) (w_cursor w) pr ->
   (forall p, pr = Some p -> L (p_ptr p)) -> NInv (set_mrn w pr) h L.
 Proof.
-  intros [Hnb Hlo Hh Hcl Hd [Pq [Po Pr]] HL] Hp HpL. constructor; auto.
+  intros [Hnb Hlo Hh Hcl Hd [Pq [Po Pr]] HL Hsd] Hp HpL. constructor; auto.
   - repeat split; auto.
   - simpl. intros p [H|[H|H]]; auto.
 Qed.
@@ -86,7 +89,7 @@ Qed.
 Lemma NInv_set_qname w h L pr : NInv w h L -> oprior_ok (w_buf w) (w_cursor w) pr ->
   (forall p, pr = Some p -> L (p_ptr p)) -> NInv (set_qname w pr) h L.
 Proof.
-  intros [Hnb Hlo Hh Hcl Hd [Pq [Po Pr]] HL] Hp HpL. constructor; auto.
+  intros [Hnb Hlo Hh Hcl Hd [Pq [Po Pr]] HL Hsd] Hp HpL. constructor; auto.
   - repeat split; auto.
   - simpl. intros p [H|[H|H]]; auto.
 Qed.
@@ -149,6 +152,44 @@ Proof.
     exact Hn.
 Qed.
 
+Lemma decodes_labels b cs : forall ls i rest e, Forall wf_label ls ->
+  slice b i (i + length (nm_lwire ls)) = nm_lwire ls -> i + length (nm_lwire ls) <= length b ->
+  decodes b cs (i + length (nm_lwire ls)) rest e -> decodes b cs i (ls ++ rest) e.
+Proof.
+  induction ls as [|l r IH]; intros i rest e Hwf Hs Hlen Hd.
+  - simpl in *. rewrite Nat.add_0_r in Hd. exact Hd.
+  - inversion Hwf as [|? ? [Hl1 Hl63] Hwf']; subst.
+    rewrite nm_lwire_cons in *. simpl length in *. rewrite app_length in *.
+    destruct (lwire_tail b i l r Hl63 Hs Hlen) as [Hnth [Hsl Hsr]].
+    assert (Hto : N.to_nat (N.of_nat (length l)) = length l) by apply Nat2N.id.
+    simpl app.
+    pose proof (dec_label b cs i (N.of_nat (length l)) (r ++ rest) e Hnth ltac:(lia) ltac:(lia)) as K.
+    rewrite Hto in K. rewrite Hsl in K. apply K; [lia|]. apply IH; auto; try lia.
+    replace (i + 1 + length l + length (nm_lwire r)) with (i + S (length l + length (nm_lwire r))) by lia.
+    exact Hd.
+Qed.
+
+Lemma lstarts_sdec b c : forall ls i rest e, Forall wf_label ls ->
+  slice b i (i + length (nm_lwire ls)) = nm_lwire ls -> i + length (nm_lwire ls) <= length b ->
+  i + length (nm_lwire ls) <= c -> name_at b c (i + length (nm_lwire ls)) rest ->
+  (forall cs, i <= cs -> decodes b cs (i + length (nm_lwire ls)) rest e) ->
+  forall s, In s (lstarts i ls) -> exists ls' e', name_at b c s ls' /\ decodes b s s ls' e'.
+Proof.
+  induction ls as [|l r IH]; intros i rest e Hwf Hs Hlen Hc Hn Hd s Hin; [destruct Hin|].
+  simpl in Hin. destruct Hin as [<-|Hin].
+  - exists ((l :: r) ++ rest), e. split; [apply name_at_labels; auto|].
+    apply decodes_labels; auto.
+  - inversion Hwf as [|? ? [Hl1 Hl63] Hwf']; subst.
+    rewrite nm_lwire_cons in *. simpl length in *. rewrite app_length in *.
+    destruct (lwire_tail b i l r Hl63 Hs Hlen) as [Hnth [Hsl Hsr]].
+    apply (IH (i + 1 + length l) rest e); auto; try lia.
+    + replace (i + 1 + length l + length (nm_lwire r)) with (i + S (length l + length (nm_lwire r))) by lia.
+      exact Hn.
+    + intros cs Hcs.
+      replace (i + 1 + length l + length (nm_lwire r)) with (i + S (length l + length (nm_lwire r))) by lia.
+      apply Hd. lia.
+Qed.
+
 Lemma lstarts_head i ls : ls <> [] -> In i (lstarts i ls).
 Proof. destruct ls; [congruence|]. intros _. simpl. auto. Qed.
 
@@ -177,9 +218,9 @@ Lemma block_root w' h L c n : NInv w' h L -> wf_name n -> header_size <= c ->
   (length (w_buf w') <= h \/ h + 2 <= c) ->
   slice (w_buf w') c (w_cursor w') = nm_wire n -> w_cursor w' = c + length (nm_wire n) ->
   closed (w_buf w') header_size (w_cursor w') h (Lroot L c n) /\
-  decodable (w_buf w') (w_cursor w') (Lroot L c n).
+  sdec (w_buf w') (w_cursor w') (Lroot L c n).
 Proof.
-  intros Hi Hwf Hlo Hh Hs Hc'. destruct Hi as [[Hn1 Hn2] _ _ Hcl Hd _ _].
+  intros Hi Hwf Hlo Hh Hs Hc'. destruct Hi as [[Hn1 Hn2] _ _ Hcl _ _ _ Hd].
   rewrite nm_wire_length in Hc'. unfold nm_wire in Hs.
   destruct (slice_app_l (w_buf w') c (c + length (nm_lwire n)) (w_cursor w') _ _ Hs eq_refl ltac:(lia) ltac:(lia))
     as [S1 S2].
@@ -196,8 +237,9 @@ Proof.
     + exists 0%N. split; [exact Hz|]. split; [lia|]. split; [unfold okr; simpl; lia|]. intros K; congruence.
   - intros s [Hs' | [Hs' | ->]].
     + apply Hd; auto.
-    + apply (lstarts_dec _ _ n c []); auto; try lia. apply Hwf.
-    + exists []. exact Hroot.
+    + apply (lstarts_sdec _ _ n c [] (c + length (nm_lwire n) + 1)); auto; try lia; [apply Hwf|].
+      intros cs _. constructor. exact Hz.
+    + exists [], (c + length (nm_lwire n) + 1). split; [exact Hroot|]. constructor. exact Hz.
 Qed.
 
 Lemma block_ptr w' h L c ls pp : NInv w' h L -> Forall wf_label ls -> header_size <= c ->
@@ -205,20 +247,22 @@ Lemma block_ptr w' h L c ls pp : NInv w' h L -> Forall wf_label ls -> header_siz
   slice (w_buf w') c (w_cursor w') = nm_lwire ls ++ be16 (ptr_word pp) ->
   w_cursor w' = c + length (nm_lwire ls) + 2 -> L pp -> pp < c -> pp <= pointer_max ->
   closed (w_buf w') header_size (w_cursor w') h (Lptr L c ls) /\
-  decodable (w_buf w') (w_cursor w') (Lptr L c ls).
+  sdec (w_buf w') (w_cursor w') (Lptr L c ls).
 Proof.
-  intros Hi Hwf Hlo Hh Hs Hc' HL Hpc Hpm. destruct Hi as [[Hn1 Hn2] _ _ Hcl Hd _ _].
+  intros Hi Hwf Hlo Hh Hs Hc' HL Hpc Hpm. destruct Hi as [[Hn1 Hn2] _ _ Hcl _ _ _ Hd].
   destruct (slice_app_l (w_buf w') c (c + length (nm_lwire ls)) (w_cursor w') _ _ Hs eq_refl ltac:(lia) ltac:(lia))
     as [S1 S2].
   destruct (ptr_word_bytes pp Hpm) as [hi [lo [Eb [Ehi Et]]]].
+  assert (Hhi : (hi < 256)%N) by (unfold be16 in Eb; inversion Eb; apply N.mod_lt; lia).
   rewrite Eb in S2. apply slice_head in S2 as [Z1 [S3 _]]. apply slice_head in S3 as [Z2 _].
   replace (S (c + length (nm_lwire ls))) with (c + length (nm_lwire ls) + 1) in Z2 by lia.
-  destruct (Hd pp HL) as [rest Hrest].
+  destruct (Hd pp HL) as [rest [erest [Hrest Hdrest]]].
+  destruct (spec_target hi lo Ehi Hhi) as [H192 Etspec].
   assert (Hpn : name_at (w_buf w') (w_cursor w') (c + length (nm_lwire ls)) rest).
   { eapply na_ptr; eauto; try lia; rewrite Et; try lia; [eapply closed_real; eauto|exact Hrest]. }
   assert (Hps : ptr_step (w_buf w') header_size (w_cursor w') h (Lptr L c ls) (c + length (nm_lwire ls))).
   { exists hi, lo. split; [exact Z1|]. split; [exact Ehi|]. split; [exact Z2|].
-    split; [unfold okr; lia|]. rewrite Et. split; [lia|left; exact HL]. }
+    split; [unfold okr; lia|]. rewrite Et. split; [lia|]. split; [left; exact HL|exact Hhi]. }
   split.
   - intros s [Hs' | Hs'].
     + eapply local_mono; [| |apply (Hcl s Hs')]; auto. intros; left; auto.
@@ -228,7 +272,10 @@ Proof.
       * right. exact Hps.
   - intros s [Hs' | Hs'].
     + apply Hd; auto.
-    + apply (lstarts_dec _ _ ls c rest); auto; lia.
+    + apply (lstarts_sdec _ _ ls c rest (c + length (nm_lwire ls) + 2)); auto; try lia.
+      intros cs Hcs. eapply dec_ptr; eauto.
+      * rewrite Etspec, Et. lia.
+      * rewrite Etspec, Et. exact Hdrest.
 Qed.
 
 (* ---------------------------------------------------------------- post-conditions with L *)
@@ -239,12 +286,20 @@ Definition emittedL (n : wname) (b' : bytes) (c c' : nat) (L : nat -> Prop) : Pr
   exists k pp, k < length n /\ slice b' c c' = nm_lwire (firstn k n) ++ be16 (ptr_word pp) /\
                L pp /\ pp < c /\ 0 < pp /\ pp <= pointer_max.
 
+(* the same with the new set of label starts given exactly: the old one plus this name's own *)
+Definition emittedT (n : wname) (b' : bytes) (c c' : nat) (L L' : nat -> Prop) : Prop :=
+  (slice b' c c' = nm_wire n /\ forall s, L' s <-> Lroot L c n s) \/
+  exists k pp, k < length n /\ slice b' c c' = nm_lwire (firstn k n) ++ be16 (ptr_word pp) /\
+               L pp /\ pp < c /\ 0 < pp /\ pp <= pointer_max /\
+               forall s, L' s <-> Lptr L c (firstn k n) s.
+
 Definition wroteL (cp : bool) (h : nat) (n : wname) (w : writer) (L : nat -> Prop)
            (pr : option prior) (w' : writer) : Prop :=
   wrote cp (w_cursor w) n w w' pr /\
   w_cursor w' <= w_cursor w + length (nm_wire n) /\
   emittedL n (w_buf w') (w_cursor w) (w_cursor w') L /\
-  exists L', grew w w' L L' /\ NInv w' h L' /\ (forall p, pr = Some p -> L' (p_ptr p)).
+  exists L', grew w w' L L' /\ NInv w' h L' /\ (forall p, pr = Some p -> L' (p_ptr p)) /\
+             emittedT n (w_buf w') (w_cursor w) (w_cursor w') L L'.
 
 Definition name_postL (cp : bool) (h : nat) (n : wname) (w : writer) (L : nat -> Prop)
            (r : M (option prior)) : Prop :=
@@ -283,7 +338,8 @@ Proof.
       * apply lstarts_bound in K. rewrite nm_wire_length in Hcur. lia.
       * rewrite nm_wire_length in Hcur. lia.
     + eapply NInv_grow; eauto. intros; left; auto.
-    + intros p Hp. destruct (hp_new (w_cursor w)) as [q|] eqn:Eh; simpl in Hp; [|discriminate].
+    + split; [|left; split; [exact Hsl|intros s; tauto]].
+      intros p Hp. destruct (hp_new (w_cursor w)) as [q|] eqn:Eh; simpl in Hp; [|discriminate].
       inversion Hp; subst p. apply hp_new_some in Eh as [-> _]. simpl.
       destruct n as [|l r]; [right; right; simpl; lia|right; left; apply lstarts_head; discriminate].
   - destruct OLD as [-> [X Sd]]. repeat split; auto; try apply X; try apply Sd.
@@ -304,8 +360,10 @@ Proof.
     split; [exact OLD|]. split; [lia|]. split.
     + right. exists 0, (p_ptr pr). simpl. repeat split; auto.
       destruct n; [simpl in H2; lia|simpl; lia].
-    + exists L. split; [apply grew_refl|]. split; [eapply NInv_ext; eauto|].
-      intros p Hp. inversion Hp; subst p. exact HL.
+    + exists L. split; [apply grew_refl|]. split; [eapply NInv_ext; eauto|]. split.
+      * intros p Hp. inversion Hp; subst p. exact HL.
+      * right. exists 0, (p_ptr pr). simpl. repeat split; auto; try (unfold Lptr; simpl; tauto).
+        destruct n; [simpl in H2; lia|simpl; lia].
   - destruct OLD as [-> [X Sd]]. repeat split; auto; try apply X; try apply Sd.
     pose proof (try_push_err_size _ _ _ _ (proj1 (ni_nb _ _ _ Hi)) E) as K.
     rewrite be16_length in K. lia.
@@ -333,8 +391,9 @@ Proof.
       rewrite be16_length in Hcur.
       split; [exact OLD|]. split; [lia|]. split.
       * right. exists 0, pp. simpl. repeat split; auto.
-      * exists L. split; [apply grew_refl|]. split; [eapply NInv_ext; eauto|].
-        intros p Hp. inversion Hp; subst p. exact Lpp.
+      * exists L. split; [apply grew_refl|]. split; [eapply NInv_ext; eauto|]. split.
+        -- intros p Hp. inversion Hp; subst p. exact Lpp.
+        -- right. exists 0, pp. simpl. repeat split; auto; unfold Lptr; simpl; tauto.
     + destruct OLD as [-> [X Sd]]. repeat split; auto; try apply X; try apply Sd.
       pose proof (try_push_err_size _ _ _ _ (proj1 (ni_nb _ _ _ Hi)) E) as K.
       rewrite be16_length in K. lia.
@@ -369,9 +428,11 @@ Proof.
       * split; [intros; left; auto|]. intros s [K|K]; auto. right.
         apply lstarts_bound in K. lia.
       * eapply NInv_grow; eauto. intros; left; auto.
-      * intros p Hp. destruct (hp_new (w_cursor w)) as [q|] eqn:Eh; simpl in Hp; [|discriminate].
-        inversion Hp; subst p. apply hp_new_some in Eh as [-> _]. simpl.
-        right. apply lstarts_head. destruct n; destruct sc; simpl in *; try lia; discriminate.
+      * split.
+        -- intros p Hp. destruct (hp_new (w_cursor w)) as [q|] eqn:Eh; simpl in Hp; [|discriminate].
+           inversion Hp; subst p. apply hp_new_some in Eh as [-> _]. simpl.
+           right. apply lstarts_head. destruct n; destruct sc; simpl in *; try lia; discriminate.
+        -- right. exists sc, pp. repeat split; auto; tauto.
 Qed.
 
 Lemma or_else_L (L : nat -> Prop) (a o : option prior) :
